@@ -308,11 +308,13 @@ func runARPSpoof(e *exec) {
 		if stalls {
 			continue
 		}
-		// liveness, stated in virtual time and only without injected stalls. Calls on this MAC
-		// that overlap another call on it have no unambiguous order: they are not judged.
+		// liveness, stated in virtual time and only without injected stalls. A StartHunt and a
+		// StopHunt of this MAC that overlap in time have no unambiguous order: such MACs are not
+		// judged. Two overlapping StartHunt calls are not ambiguous: in either order the MAC is
+		// hunted once (StartHunt is idempotent per MAC).
 		ambiguous := func(r *callRec) bool {
 			for _, y := range ev {
-				if y.rec != nil && y.rec != r && y.rec.Inv < r.Ret && r.Inv < y.rec.Ret {
+				if y.rec != nil && y.rec != r && y.rec.Op.K != r.Op.K && y.rec.Inv < r.Ret && r.Inv < y.rec.Ret {
 					return true
 				}
 			}
